@@ -74,11 +74,30 @@ type cliCase struct {
 	note     string
 }
 
-func jsonRows(n int, badLine int) string {
+// badTexts: what a malformed row says.  Datasource errors quote the offending input, so the text of a runtime error
+// is user data; the family contains texts that look like the operators' internal stop signals.
+var badTexts = []string{"WARN rate limit reached for client 42", "limit reached", "limit 01ARZ3NDEKTSV4RRFFQ69G5FAV reached", "oops", "EOF", "context canceled"}
+
+// jsonRows: n rows; row badLine is malformed in the given way:
+//
+//	"truncated"  an object cut off in the middle
+//	"text"       a line that is not JSON at all (badText)
+//	"wrongtype"  valid JSON whose field b is an object quoting badText (b is a String in the preview)
+//	"toolong"    a line longer than the scanner's 1 MiB limit
+func jsonRows(n int, badLine int, kind, badText string) string {
 	var b strings.Builder
 	for i := 0; i < n; i++ {
 		if i == badLine {
-			b.WriteString(fmt.Sprintf("{\"a\": %d, \"b\": \"s%d\", \"g\": \n", i, i)) // truncated object
+			switch kind {
+			case "text":
+				b.WriteString(badText + "\n")
+			case "wrongtype":
+				b.WriteString(fmt.Sprintf("{\"a\": %d, \"b\": {\"text\": %q}, \"g\": %d}\n", i, badText, i%3))
+			case "toolong":
+				b.WriteString(fmt.Sprintf("{\"a\": %d, \"b\": \"%s\", \"g\": %d}\n", i, strings.Repeat("y", 1100*1024), i%3))
+			default:
+				b.WriteString(fmt.Sprintf("{\"a\": %d, \"b\": \"s%d\", \"g\": \n", i, i))
+			}
 			continue
 		}
 		b.WriteString(fmt.Sprintf("{\"a\": %d, \"b\": \"s%d\", \"g\": %d}\n", i, i, i%3))
@@ -86,12 +105,17 @@ func jsonRows(n int, badLine int) string {
 	return b.String()
 }
 
-func csvRows(n int, badLine int) string {
+// csvRows: "fields" = wrong number of fields, "quote" = unterminated quote quoting badText
+func csvRows(n int, badLine int, kind, badText string) string {
 	var b strings.Builder
 	b.WriteString("a,b,g\n")
 	for i := 0; i < n; i++ {
 		if i == badLine {
-			b.WriteString(fmt.Sprintf("%d,s%d,%d,extra,fields\n", i, i, i%3)) // wrong number of fields
+			if kind == "quote" {
+				b.WriteString(fmt.Sprintf("%d,\"%s\n", i, badText))
+			} else {
+				b.WriteString(fmt.Sprintf("%d,s%d,%d,%s,fields\n", i, i, i%3, badText))
+			}
 			continue
 		}
 		b.WriteString(fmt.Sprintf("%d,s%d,%d\n", i, i, i%3))
@@ -133,21 +157,21 @@ var shapes = []struct{ name, q string }{
 
 // panic() on a chosen row of a clean table: the row with a = {K}
 var panicShapes = []struct{ name, q string }{
-	{"panic_map", "SELECT panic(t.b) AS x FROM {T} t WHERE t.a = {K}"},
-	{"panic_distinct", "SELECT DISTINCT panic(t.b) AS x FROM {T} t WHERE t.a >= {K}"},
-	{"panic_order_by", "SELECT panic(t.b) AS x, t.a FROM {T} t WHERE t.a = {K} ORDER BY t.a"},
-	{"panic_where", "SELECT t.a FROM {T} t WHERE t.a < {K} OR panic(t.b) = 'x'"},
-	{"panic_group_key", "SELECT q.x, COUNT(*) AS c FROM (SELECT panic(t.b) AS x FROM {T} t WHERE t.a = {K}) q GROUP BY q.x"},
-	{"panic_agg_arg", "SELECT t.g, COUNT(panic(t.b)) AS c FROM {T} t WHERE t.a >= {K} GROUP BY t.g"},
-	{"panic_subquery_expr", "SELECT u.a, (SELECT panic(t.b) FROM {T} t WHERE t.a = {K}) AS l FROM {U} u"},
-	{"panic_join_key", "SELECT t.a FROM {T} t JOIN {U} u ON panic(t.b) = u.b WHERE t.a >= {K}"},
-	{"panic_in_distinct_subquery", "SELECT DISTINCT q.x FROM (SELECT panic(t.b) AS x FROM {T} t WHERE t.a = {K}) q"},
+	{"panic_map", "SELECT panic({P}) AS x FROM {T} t WHERE t.a = {K}"},
+	{"panic_distinct", "SELECT DISTINCT panic({P}) AS x FROM {T} t WHERE t.a >= {K}"},
+	{"panic_order_by", "SELECT panic({P}) AS x, t.a FROM {T} t WHERE t.a = {K} ORDER BY t.a"},
+	{"panic_where", "SELECT t.a FROM {T} t WHERE t.a < {K} OR panic({P}) = 'x'"},
+	{"panic_group_key", "SELECT q.x, COUNT(*) AS c FROM (SELECT panic({P}) AS x FROM {T} t WHERE t.a = {K}) q GROUP BY q.x"},
+	{"panic_agg_arg", "SELECT t.g, COUNT(panic({P})) AS c FROM {T} t WHERE t.a >= {K} GROUP BY t.g"},
+	{"panic_subquery_expr", "SELECT u.a, (SELECT panic({P}) FROM {T} t WHERE t.a = {K}) AS l FROM {U} u"},
+	{"panic_join_key", "SELECT t.a FROM {T} t JOIN {U} u ON panic({P}) = u.b WHERE t.a >= {K}"},
+	{"panic_in_distinct_subquery", "SELECT DISTINCT q.x FROM (SELECT panic({P}) AS x FROM {T} t WHERE t.a = {K}) q"},
 }
 
 var formats = []string{"json", "csv", "batch_table", "stream_native"}
 
 func runCLI(cf *lib.CaseFile, rng *lib.Rng, f lib.Flags) {
-	n := f.Cases(70, 600)
+	n := f.Cases(80, 700)
 	work, err := os.MkdirTemp("", "c06cli")
 	if err != nil {
 		fmt.Fprintln(os.Stderr, err)
@@ -175,22 +199,37 @@ func runCLI(cf *lib.CaseFile, rng *lib.Rng, f lib.Flags) {
 		}
 		format := formats[r.Intn(len(formats))]
 		c := cliCase{format: format}
-		clean := jsonRows(12, -1)
-		switch k := r.Intn(10); {
+		clean := jsonRows(12, -1, "", "")
+		badText := badTexts[r.Intn(len(badTexts))]
+		// an outer LIMIT that is never reached must not change anything: the failure is still certainly reached
+		unreached := ""
+		if r.Chance(1, 3) {
+			unreached = fmt.Sprintf(" LIMIT %d", rows+1000)
+		}
+		switch k := r.Intn(13); {
 		case k < 5: // malformed row in a JSON / CSV file
 			sh := shapes[(i/2)%len(shapes)]
-			ext := "json"
-			gen := jsonRows
+			ext, kind := "json", []string{"truncated", "text", "wrongtype"}[r.Intn(3)]
+			if kind == "wrongtype" && !(bad >= 100 && (sh.name == "select_star" || sh.name == "order_by")) {
+				kind = "text" // inside the schema preview another kind is merged into the type; an unread field is not decoded
+			}
+			gen := func(n, bad int) string { return jsonRows(n, bad, kind, badText) }
 			if r.Chance(1, 3) {
-				ext, gen = "csv", csvRows
+				ext, kind = "csv", []string{"fields", "quote"}[r.Intn(2)]
+				gen = func(n, bad int) string { return csvRows(n, bad, kind, badText) }
 			}
 			c.name = sh.name + "_" + ext
 			c.query = strings.ReplaceAll(strings.ReplaceAll(sh.q, "{T}", "t."+ext), "{U}", "u.json")
 			c.files = map[string]string{"t." + ext: gen(rows, bad), "u.json": clean}
 			c.good = map[string]string{"t." + ext: gen(rows, -1), "u.json": clean}
 			c.mustFail = true
-			c.note = fmt.Sprintf("%d rows, malformed row at line %d", rows, bad)
-			if r.Chance(1, 4) { // LIMIT above: certainly reached only when more rows are needed than precede the bad one
+			c.note = fmt.Sprintf("%d rows, malformed row (%s, %q) at line %d", rows, kind, badText, bad)
+			cf.Count("cli_bad_row_kind_" + kind)
+			if unreached != "" {
+				c.name += "_unreached_limit"
+				c.query = "SELECT * FROM (" + c.query + ") lim" + unreached
+				c.note += "," + unreached + " (never reached)"
+			} else if r.Chance(1, 4) { // LIMIT above: certainly reached only when more rows are needed than precede the bad one
 				k := 1 + r.Intn(rows)
 				c.name += "_limit"
 				c.query = "SELECT * FROM (" + c.query + ") lim LIMIT " + fmt.Sprint(k)
@@ -199,25 +238,50 @@ func runCLI(cf *lib.CaseFile, rng *lib.Rng, f lib.Flags) {
 				if sh.name == "select_star" || sh.name == "where" || sh.name == "subquery_from" || sh.name == "with" {
 					c.mustFail = k > bad
 				}
-				if sh.name == "order_by" || sh.name == "group_by" || sh.name == "group_by_order" || sh.name == "distinct_subquery_order" {
-					c.mustFail = sh.name != "distinct_subquery_order" // ORDER BY / GROUP BY read their whole input first
+				if sh.name == "order_by" || sh.name == "group_by" || sh.name == "group_by_order" {
+					c.mustFail = true // ORDER BY / GROUP BY read their whole input first
 				}
 			}
 		case k < 9: // panic() on a chosen row of clean files
 			sh := panicShapes[(i/2)%len(panicShapes)]
 			c.name = sh.name
 			row := r.Intn(rows)
-			c.query = strings.ReplaceAll(strings.ReplaceAll(strings.ReplaceAll(sh.q, "{T}", "t.json"), "{U}", "u.json"), "{K}", fmt.Sprint(row)+".0")
-			c.files = map[string]string{"t.json": jsonRows(rows, -1), "u.json": clean}
+			arg := "t.b"
+			if r.Chance(1, 2) {
+				arg = "'" + badText + "'"
+			}
+			c.query = strings.ReplaceAll(strings.ReplaceAll(strings.ReplaceAll(strings.ReplaceAll(sh.q, "{T}", "t.json"), "{U}", "u.json"), "{K}", fmt.Sprint(row)+".0"), "{P}", arg)
+			c.files = map[string]string{"t.json": jsonRows(rows, -1, "", ""), "u.json": clean}
 			c.good = nil // calibrated by replacing panic(...) below
 			c.mustFail = true
-			c.note = fmt.Sprintf("%d rows, panic() reached on the row(s) selected by a = / >= %d", rows, row)
+			c.note = fmt.Sprintf("%d rows, panic(%s) reached on the row(s) selected by a = / >= %d", rows, arg, row)
+			if unreached != "" {
+				c.name += "_unreached_limit"
+				c.query = "SELECT * FROM (" + c.query + ") lim" + unreached
+				c.note += "," + unreached + " (never reached)"
+			}
+		case k < 12: // a line longer than the JSON scanner's limit: a read error, not a parse error.  The reader hands lines
+			// to the parsers in batches of 64, so positions at and around multiples of 64 are drawn systematically
+			n := 101 + r.Intn(200)
+			if r.Chance(2, 3) {
+				n = 64*(2+r.Intn(3)) + []int{0, 0, 1, -1}[r.Intn(4)]
+			}
+			rows = n + 1 + r.Intn(8)
+			sh := shapes[[]int{0, 1, 2, 3, 4, 10}[r.Intn(6)]]
+			c.name = "json_line_too_long_" + sh.name
+			c.query = strings.ReplaceAll(strings.ReplaceAll(sh.q, "{T}", "t.json"), "{U}", "u.json") + unreached
+			c.files = map[string]string{"t.json": jsonRows(rows, n, "toolong", ""), "u.json": clean}
+			c.good = map[string]string{"t.json": jsonRows(rows, -1, "", ""), "u.json": clean}
+			c.mustFail = true
+			c.note = fmt.Sprintf("%d good lines, then a line longer than the 1 MiB limit%s", n, unreached)
+			cf.Count(fmt.Sprintf("cli_too_long_after_mod64_%d", n%64))
 		default: // over-long line in a lines file
 			c.name = "lines_too_long"
 			c.query = "SELECT * FROM t.lines t"
 			if r.Bool() {
 				c.query = "SELECT DISTINCT t.text FROM t.lines t"
 			}
+			c.query += unreached
 			if bad < 1 {
 				bad = 1
 			}
@@ -227,7 +291,6 @@ func runCLI(cf *lib.CaseFile, rng *lib.Rng, f lib.Flags) {
 			c.files = map[string]string{"t.lines": linesRows(rows, bad)}
 			c.good = map[string]string{"t.lines": linesRows(rows, -1)}
 			c.mustFail = true
-			c.class = "lines-scanner-err"
 			c.note = fmt.Sprintf("%d lines, line %d is longer than the scanner's buffer", rows, bad)
 		}
 		cases = append(cases, c)
